@@ -243,7 +243,8 @@ class BankMachine(Module):
             )
         )
         fsm.act("REFRESH",
-            If(twtpcon.ready,
+            # The refresh starts with a Precharge All: wait for tWTP and tRAS like an explicit Precharge.
+            If(twtpcon.ready & trascon.ready,
                 refresh_gnt.eq(1),
             ),
             row_close.eq(1),
